@@ -492,6 +492,28 @@ class Model:
                 return getattr(obj, attr)
             if attr == "astype":
                 return lambda *a, **k: obj
+            if attr in ("swapaxes", "squeeze", "flatten", "repeat", "take", "clip", "round", "conj", "conjugate", "tolist", "item", "fill", "nonzero", "argmax", "argmin", "cumsum", "dot"):
+                # ndarray methods that are not ufunc / function dispatched: numpy runs them on the data and returns an array of
+                # the same subclass (views and copies of a subclass keep the subclass); scalars / lists / index tuples stay plain
+                fn = _NP_FUNCS.get(attr if attr not in ("conjugate",) else "conj")
+
+                def _m(*a, _obj=obj, _attr=attr, _fn=fn, **k):
+                    if _attr == "tolist":
+                        return XArray.tolist(_obj)
+                    if _attr == "item":
+                        return _obj.data[0] if not a else XArray.__getitem__(_obj, tuple(a) if len(a) > 1 else a[0])
+                    if _attr == "flatten":
+                        res = XArray.ravel(_obj)
+                    elif _attr == "fill":
+                        _obj.data[:] = [a[0]] * len(_obj.data)
+                        return None
+                    elif _fn is None:
+                        raise AnalysisError(f"FeArray attribute {_attr} is not modelled")
+                    else:
+                        res = _fn(plain(_obj), *a, **k)
+                    return FeV(res.shape, res.data) if isinstance(res, XArray) and _attr not in ("nonzero", "argmax", "argmin") else res
+
+                return _m
             raise AnalysisError(f"FeArray attribute {attr} is not modelled")
         if isinstance(obj, XArray) and attr == "view":
             return lambda cls=None: self.view(obj, cls)
